@@ -12,7 +12,7 @@ EXEC_SRCS := sim/exec_a.cpp sim/exec_b.cpp sim/exec_c.cpp sim/exec_d.cpp sim/mai
 HFLAGS := -std=c++14 -O0 -g -fno-omit-frame-pointer -fsanitize=address,undefined -fno-sanitize-recover=undefined -DTROMPELOEIL_SANITY_CHECKS -I$(INC) -Isim -Wno-unused-value
 H_OBJS := $(patsubst $(GEN)/%.cpp,$(B)/H/%.o,$(SHAPE_SRCS)) $(patsubst sim/%.cpp,$(B)/H/%.o,$(EXEC_SRCS))
 
-all: $(B)/simH
+all: $(B)/simH $(B)/simT $(B)/simTa
 
 $(GEN)/stamp: tools/gen_shapes.py
 	@mkdir -p $(GEN)
@@ -32,3 +32,31 @@ $(B)/simH: $(H_OBJS)
 clean:
 	rm -rf $(B)
 .PHONY: all clean
+
+# ---- Mode T: the scheduler TU is compiled WITHOUT sanitizer instrumentation (DESIGN.md 3.4) ----
+T_SRCS := sim/exec_a.cpp sim/exec_b.cpp sim/exec_c.cpp sim/exec_d.cpp sim/main.cpp sim/modet.cpp
+WRAP := -Wl,--wrap=pthread_mutex_lock -Wl,--wrap=pthread_mutex_unlock -pthread
+TFLAGS := -std=c++14 -O1 -g -fno-omit-frame-pointer -fsanitize=thread -DSIM_MODE_T -I$(INC) -Isim -Wno-unused-value -pthread
+T_OBJS := $(patsubst $(GEN)/%.cpp,$(B)/T/%.o,$(SHAPE_SRCS)) $(patsubst sim/%.cpp,$(B)/T/%.o,$(T_SRCS))
+$(B)/T/%.o: $(GEN)/%.cpp $(HDRS) $(GEN)/stamp
+	@mkdir -p $(B)/T
+	$(CXX) $(TFLAGS) -c $< -o $@
+$(B)/T/%.o: sim/%.cpp $(HDRS) $(GEN)/stamp
+	@mkdir -p $(B)/T
+	$(CXX) $(TFLAGS) -c $< -o $@
+$(B)/T/sched.o: sim/sched.cpp sim/sched.hpp
+	@mkdir -p $(B)/T
+	$(CXX) -std=c++14 -O1 -g -DSIM_TSAN -c $< -o $@
+$(B)/simT: $(T_OBJS) $(B)/T/sched.o
+	$(CXX) $(TFLAGS) $(WRAP) $^ -o $@
+
+TAFLAGS := -std=c++14 -O0 -g -fno-omit-frame-pointer -fsanitize=address,undefined -fno-sanitize-recover=undefined -DTROMPELOEIL_SANITY_CHECKS -DSIM_MODE_T -I$(INC) -Isim -Wno-unused-value -pthread
+TA_OBJS := $(patsubst $(GEN)/%.cpp,$(B)/H/%.o,$(SHAPE_SRCS)) $(B)/H/exec_a.o $(B)/H/exec_b.o $(B)/H/exec_c.o $(B)/H/exec_d.o $(B)/TA/main.o $(B)/TA/modet.o
+$(B)/TA/%.o: sim/%.cpp $(HDRS) $(GEN)/stamp
+	@mkdir -p $(B)/TA
+	$(CXX) $(TAFLAGS) -c $< -o $@
+$(B)/TA/sched.o: sim/sched.cpp sim/sched.hpp
+	@mkdir -p $(B)/TA
+	$(CXX) -std=c++14 -O1 -g -c $< -o $@
+$(B)/simTa: $(TA_OBJS) $(B)/TA/sched.o
+	$(CXX) $(TAFLAGS) $(WRAP) $^ -o $@
